@@ -4,10 +4,10 @@
 EXTENDS HandshakeAbs, Json
 CONSTANT Mode      \* "full" = whole cross product; "pairwise" = everything nominal + each dimension varied alone and in pairs
 VARIABLE cell
-Nominal(l) == [loc |-> l, ptype |-> "x", ver |-> <<3, 0>>, mech |-> "NULL", sig |-> "ok", ident |-> "none", first |-> "ready"]
-Full == [loc : Implemented, ptype : PeerTypes, ver : Versions, mech : Mechs, sig : Sigs, ident : Idents, first : Firsts]
+Nominal(l) == [loc |-> l, ptype |-> "x", ver |-> <<3, 0>>, mech |-> "NULL", sig |-> "ok", ident |-> "none", first |-> "ready", ncase |-> "canonical"]
+Full == [loc : Implemented, ptype : PeerTypes, ver : Versions, mech : Mechs, sig : Sigs, ident : Idents, first : Firsts, ncase : NameCases]
 Dist(c) == (IF c.ver # <<3, 0>> THEN 1 ELSE 0) + (IF c.mech # "NULL" THEN 1 ELSE 0) + (IF c.sig # "ok" THEN 1 ELSE 0)
-           + (IF c.ident # "none" THEN 1 ELSE 0) + (IF c.first # "ready" THEN 1 ELSE 0)
+           + (IF c.ident # "none" THEN 1 ELSE 0) + (IF c.first # "ready" THEN 1 ELSE 0) + (IF c.ncase # "canonical" THEN 1 ELSE 0)
 Grid == IF Mode = "full" THEN Full ELSE {c \in Full : Dist(c) <= 2}
 Init == cell \in Grid
 Next == FALSE /\ cell' = cell
